@@ -297,8 +297,17 @@ def _c01_gap(mols):
 
 
 def _cgr_symmetric(cgr):
-    order = cgr.atoms_order
-    return len(set(order.values())) < len(order)
+    """the condensed graph has a ranking tie that is not a symmetry (the C01 known finding on tie-breaking by atom order), decided
+    on the dynamic labelled graph by the independent refinement/orbit oracle - not by the library's own ordering"""
+    from ..oracles import wl
+    col = {n: (a.atomic_symbol, a.isotope, a.charge, a.p_charge, a.is_radical, a.p_is_radical) for n, a in cgr.atoms()}
+    adj = {n: {} for n in col}
+    for a, b, bond in cgr.bonds():
+        adj[a][b] = adj[b][a] = (bond.order, bond.p_order)
+    try:
+        return bool(wl.local_swap_ok(col, adj))
+    except TimeoutError:
+        return True
 
 
 def _cgr_plain(cgr):
